@@ -48,6 +48,26 @@ claimed={
    text="The real runOn/runLocal/runOff/runClean are run as simulated user processes between uploader rounds over directories populated by the simulation plus foreign files with names matching exactly, nearly or not at all the data-file patterns, and sub-directories. After clean: exactly the counter files and reports (local and uploaded) are gone, everything else hashes the same. A mode command leaves the file byte-identical when the parsed mode already equals the request, otherwise the file is `<mode> <simulated UTC date>` and the library reads that back.",
    note="Input-heavy property: claimed for the clauses that meet the simulated history, clock and disk. Sub-directories carry no data suffix.",
    tech=T+"user commands as simulated processes inside machine histories, directory model"),
+ "C16": dict(level="exploration", design="5 (C16)",
+   text="2..8 starter processes in a simulated process table (environment, pid, exec, exit) call the real Start concurrently over the decision table (child marker unset/1/2/junk x crash flag x upload flag x mode on/local/off/missing/garbage x token absent/fresh/stale incl. exactly 24 h), interleaved at file-system-call granularity (stat token, remove, exclusive create), some starters hours apart; spawned children run the real child path (marker rewrite, counter.Open, upload.Run) and the config download spawns a descendant that calls Start again. At every spawn: mode not off, spawner not a telemetry child or a descendant of one, the upload flag only with a token acquired in this call and requested, otherwise crash reporting requested. Mode off: no mutating call and an unchanged directory. With no stale token and all starters within the period: at most one acquisition (none if a fresh token exists).",
+   note="Simulated processes share one address space (internal/counter's default file is shared). crashmonitor.Parent/Child and configstore.Download are stubs. The statement is only-if: not checked that a child is launched whenever permitted. One genuine defect found here was repaired (uploader touched the directory in mode off).",
+   tech=T+"simulated process table (env, exec, exit), token race at file-system-call granularity, decision-table oracle at every spawn"),
+ "C11": dict(level="exploration", design="5 (C11)",
+   text="Server family: a generated configuration and counter files (platforms, versions, near-miss names), one real upload.Run whose every request the simulated transport hands to the real upload handler configured with the same configuration (must answer 200); each produced body is then re-delivered with one field changed to a near-miss (program, version, Go version, GOOS, GOARCH, counter, stack first line) and the handler must answer 4xx exactly when the reference configuration semantics put the changed report outside the configuration. Viewer family: the viewer's per-item active flags and summary text for generated files must agree with the same reference semantics.",
+   note="The three deciders are each compared with refcfg (documented semantics): uploader (C01 oracle), server and viewer (here). Two genuine disagreements found were repaired by fix: commits (uploader ignored GOOS/GOARCH; viewer matched stacks by full name).",
+   tech=T+"real uploader wired to the real server handler through a corrupting transport; differential check against the reference config semantics"),
+ "C12": dict(level="exploration", design="5 (C12), 6",
+   text="Request streams to the real upload handler behind its real middleware chain and file-system bucket: all methods; valid approved reports (incl. ~100 KiB and hostile X), reports with exactly one invalid field, near-miss names, arbitrary bytes, wrong-shape JSON, truncated and oversize bodies, duplicates; bodies delivered through readers with short reads, mid-stream errors and early ends. After every request: answer class (200 only for valid approved POSTs, otherwise 4xx, never 5xx), the recursive listing of the storage tree equals the map-store model, the stored object decodes to the report sent, nothing outside the bucket changes.",
+   note="Input-heavy property; claimed for the clauses that meet the simulated transport/body stream and the request history. Trailing bytes after a complete JSON value are not judged. Clean URL path assumed.",
+   tech="seeded request-stream simulation with body-stream fault injection against a map object store and reference config semantics"),
+ "C13": dict(level="exploration", design="5 (C13)",
+   text="Per simulated day a set of stored reports (0..40, tiny to just under the 100 KiB upload limit, repeated X across days), the real handleMerge per day and handleChart for single days and ranges, with bucket listing order and Go map iteration order (inside group/partition, instrumented build) permuted by the tape, each chart computed three times. Checked: exactly one merged record per stored object decoding to it; NumReports; every partition value equals the reference count of distinct report IDs carrying that program's bucket; byte-identical output across permutations; a range with a never-merged day answers 404 and writes no chart.",
+   note="A genuine defect found here (merged lines over 64 KiB silently end the day's list) was repaired by a fix: commit. Config Go versions are release versions.",
+   tech="tape-permuted listing and map iteration order over real merge/chart handlers, reference distinct-ID counting"),
+ "C18": dict(level="exploration", design="5 (C18)",
+   text="Histories of write / overwrite / read / prefix-list on the real FSBucket against a map object store over nested ordinary names and every object-name shape the upload, merge and chart services construct (week/%g.json incl. extreme floats, date.json, start_end.json); round-trip, not-exist for absent objects, exact prefix listing, containment under the bucket directory, sibling bucket untouched.",
+   note="Light, input-heavy property claimed for its history part. Names that are a path prefix of another stored name are not generated (a file system cannot hold them).",
+   tech="seeded operation histories against a map model"),
 }
 checks=[]
 for pid,c in sorted(claimed.items()):
